@@ -70,9 +70,14 @@ var danger = []string{"exit", "quit", "bye", "sleep", "read", "load", "run", "sh
 	"princ", "prin1", "terpri", "fresh-line", "y-or-n", "yes-or-no", "prompt", "input", "clear"}
 
 func dangerous(name string) bool {
-	for _, d := range danger {
-		if strings.Contains(name, d) {
-			return true
+	if strings.HasPrefix(name, "with-") {
+		return true
+	}
+	for _, part := range strings.FieldsFunc(name, func(r rune) bool { return r == '-' || r == '*' || r == '/' }) {
+		for _, d := range danger {
+			if part == d || part == d+"s" {
+				return true
+			}
 		}
 	}
 	return false
@@ -173,10 +178,21 @@ func RunArity(ctx *common.Ctx) {
 			src := "(" + r.Name + strings.Repeat(" nil", cnt) + ")"
 			o := common.EvalTimeout(scope, src, 2*time.Second)
 			probed++
-			if strings.HasPrefix(o.Msg, "Too few arguments") || strings.HasPrefix(o.Msg, "Too many arguments") {
+			if strings.HasPrefix(o.Msg, "Too few arguments") || strings.HasPrefix(o.Msg, "Too many arguments") || strings.Contains(o.Msg, " arguments.") {
 				agree++
-			} else if len(disagree) < 20 {
-				disagree = append(disagree, fmt.Sprintf("%s => %s %s", src, o.Err, o.Msg))
+			} else {
+				if len(disagree) < 20 {
+					disagree = append(disagree, fmt.Sprintf("%s => %s %s", src, o.Err, o.Msg))
+				}
+				key := r.Pkg + ":" + r.Name
+				if _, listed := ctx.Known["C04-arity-unchecked:"+key]; listed {
+					ctx.KnownResult("C04-arity-unchecked:"+key, true, src+" not rejected as an arity error")
+				} else {
+					mn, mx, _ := docArity(r.Args)
+					ctx.Violate("the argument count check found in the source is not what the running built-in enforces",
+						map[string]any{"key": key, "lambda_list": r.Args, "doc": [2]int{mn, mx}, "check_in_source": [2]int{r.Min, r.Max}, "call": src},
+						fmt.Sprintf("%s: %s %s", src, o.Err, o.Msg), "an arity error")
+				}
 			}
 		}
 		try(r.Min - 1)
@@ -184,9 +200,48 @@ func RunArity(ctx *common.Ctx) {
 			try(r.Max + 1)
 		}
 	}
+	// built-ins for which the translator finds no constant check: the running binary must still
+	// reject a count outside the documented lambda list as an arity error
+	unchecked := map[string]bool{}
+	for id := range ctx.Known {
+		if strings.HasPrefix(id, "C04-arity-unchecked:") {
+			unchecked[strings.TrimPrefix(id, "C04-arity-unchecked:")] = true
+		}
+	}
+	uprobed := 0
+	for _, r := range rows {
+		key := r.Pkg + ":" + r.Name
+		if r.HasCheck || dangerous(r.Name) || r.Pkg != "pkg/cl" {
+			continue
+		}
+		mn, mx, _ := docArity(r.Args)
+		rejected := func(cnt int) bool {
+			src := "(" + r.Name + strings.Repeat(" nil", cnt) + ")"
+			o := common.EvalTimeout(scope, src, 2*time.Second)
+			uprobed++
+			return strings.HasPrefix(o.Msg, "Too few arguments") || strings.HasPrefix(o.Msg, "Too many arguments")
+		}
+		bad := -1
+		if mx >= 0 && mx < 12 && !rejected(mx+1) {
+			bad = mx + 1
+		} else if mn > 0 && !rejected(mn-1) {
+			bad = mn - 1
+		}
+		if bad < 0 {
+			continue
+		}
+		if unchecked[key] {
+			ctx.KnownResult("C04-arity-unchecked:"+key, true, fmt.Sprintf("%d arguments not rejected as an arity error", bad))
+		} else {
+			ctx.Violate("a built-in accepts an argument count its documented lambda list does not allow",
+				map[string]any{"key": key, "lambda_list": r.Args, "doc": [2]int{mn, mx}, "call": "(" + r.Name + strings.Repeat(" nil", bad) + ")"},
+				fmt.Sprintf("%d arguments are not rejected as an arity error", bad), fmt.Sprintf("documented (min,max) = (%d,%d)", mn, mx))
+		}
+	}
 	if ctx.Meta.Extra == nil {
 		ctx.Meta.Extra = map[string]any{}
 	}
+	ctx.Meta.Extra["unchecked_rows_probed"] = uprobed
 	ctx.Meta.Extra["arity_rows"] = nrows
 	ctx.Meta.Extra["arity_rows_with_constant_check"] = func() int {
 		n := 0
